@@ -186,6 +186,43 @@ fn roundtrip(cap: &mut SyncCapture, filter: &Filter, which: usize) -> Result<Tre
     fref::parse(&args[argidx]).map_err(|e| format!("filter grammar: {} on {:?}", e, String::from_utf8_lossy(&args[argidx])))
 }
 
+/// A value containing a line feed cannot be sent at all (C07). Such a filter must be REFUSED by every command that
+/// takes it (today: `command()` panics) - or, should a later version find a way, sent faithfully. What must never
+/// happen is a request that goes out with a different filter or with none: the server would then answer for
+/// something the caller did not ask (for `list`/`count` without a filter: the whole database).
+pub fn check_unsendable(cap: &mut SyncCapture, acc: &mut Acc, case: u64, plan: &Plan, tags: &[(Tag, String)]) {
+    let built = panics::catch(|| plan.build(tags));
+    let (filter, mirror) = match built {
+        Ok(x) => x,
+        Err(_) => {
+            acc.inc("unsendable_refused");
+            return;
+        }
+    };
+    let want = mirror.normalize();
+    for which in 0..11usize {
+        acc.inc("evaluations");
+        acc.inc("unsendable_filters_tried");
+        match panics::catch(|| roundtrip(cap, &filter, which)) {
+            Err(_) => acc.inc("unsendable_refused"),
+            Ok(Ok(t)) if t.normalize() == want => acc.inc("unsendable_sent_faithfully"),
+            Ok(other) => {
+                let describe = match &other {
+                    Ok(t) => format!("a request was written whose filter parses as {}", t.normalize().describe()),
+                    Err(e) => format!("a request was written: {}", e),
+                };
+                acc.violation(
+                    case,
+                    None,
+                    format!("a filter with a line feed in a value was neither refused nor sent faithfully: built {} but {}", want.describe(), describe),
+                    J::obj().set("expected", want.describe()).set("observed", describe.clone()).set("path", which).set("plan", format!("{:?}", plan)),
+                );
+                return;
+            }
+        }
+    }
+}
+
 pub fn check_plan(cap: &mut SyncCapture, acc: &mut Acc, case: u64, plan: &Plan, tags: &[(Tag, String)]) {
     let built = panics::catch(|| plan.build(tags));
     let (filter, mirror) = match built {
@@ -323,6 +360,20 @@ impl Property for C11 {
             }
             acc.inc("random_trees");
             check_plan(&mut cap, acc, i, &plan, &tags);
+            if r.chance(1, 8) {
+                // the same tree with a line feed put into one of its values
+                let mut p = plan.clone();
+                let mut vs = Vec::new();
+                p.values_mut(&mut vs);
+                if !vs.is_empty() {
+                    let k = r.below(vs.len());
+                    let v: &mut String = vs[k];
+                    let at = (0..=v.len()).filter(|&x| v.is_char_boundary(x)).nth(r.below(v.chars().count() + 1)).unwrap_or(0);
+                    v.insert_str(at, *r.pick(&["\n", "\n", "\r\n", "\nstatus\n"]));
+                    drop(vs);
+                    check_unsendable(&mut cap, acc, i, &p, &tags);
+                }
+            }
             if acc.want_sample() && depth >= 2 {
                 let (f, m) = plan.build(&tags);
                 let w = cap.send(cmds::Find::new(f).command());
@@ -333,7 +384,7 @@ impl Property for C11 {
     fn meta(&self, _cfg: &Cfg, _acc: &Acc) -> Meta {
         Meta {
             level: "exploration",
-            rule: "EXHAUSTIVE: all 820 value strings of length <=3 over {a, space, double quote, single quote, backslash, (, ), !, e-acute} plus 19 words (AND, ==, contains, nested-expression look-alikes, tabs, CR, CJK, emoji), each as a leaf with all five operators, negated, and on both sides of an AND; plus random trees (depth <=6, AND chains of width 2-6 in both association orders, negate()/! mixes, tag_exists/tag_absent shorthands, 31 named tags + any + 9 other valid names, values incl. 3000-byte ones); every filter is sent through find, count and list and one of eight longer builder paths (Count::group_by, CountGrouped::filter, List::filter.group_by, Find::sort.window, List::group_by.filter, and three in which `filter` is called twice and the documented overwrite must leave the second filter), the wire line is tokenised by the MPD tokenizer port, the filter argument parsed by the port of MPD's ParseExpression and compared with the mirror tree modulo AND flattening and tag-name case; failing filters are attributed to known-finding classes by the values in the tree + failure mode and must round-trip once those values are neutralised; non-trivial = tree with >=2 nodes or a value with a special character or empty; distinct by normalised tree".into(),
+            rule: "EXHAUSTIVE: all 820 value strings of length <=3 over {a, space, double quote, single quote, backslash, (, ), !, e-acute} plus 19 words (AND, ==, contains, nested-expression look-alikes, tabs, CR, CJK, emoji), each as a leaf with all five operators, negated, and on both sides of an AND; plus random trees (depth <=6, AND chains of width 2-6 in both association orders, negate()/! mixes, tag_exists/tag_absent shorthands, 31 named tags + any + 9 other valid names, values incl. 3000-byte ones); every filter is sent through find, count and list and one of eight longer builder paths (Count::group_by, CountGrouped::filter, List::filter.group_by, Find::sort.window, List::group_by.filter, and three in which `filter` is called twice and the documented overwrite must leave the second filter), the wire line is tokenised by the MPD tokenizer port, the filter argument parsed by the port of MPD's ParseExpression and compared with the mirror tree modulo AND flattening and tag-name case; one random tree in eight is tried again with a line feed inside one value, through all eleven builder paths: the command must be refused (panic) or sent faithfully, never written with another filter or without one; failing filters are attributed to known-finding classes by the values in the tree + failure mode and must round-trip once those values are neutralised; non-trivial = tree with >=2 nodes or a value with a special character or empty; distinct by normalised tree".into(),
             nontrivial_set: "nontrivial",
             assumptions: vec![
                 "ports of MPD util/Tokenizer.cxx and song/Filter.cxx (ParseExpression, ExpectWord, ExpectQuoted, ParseStringFilter) are the trusted base; self-tested at start-up".into(),
@@ -341,7 +392,7 @@ impl Property for C11 {
                 "pseudo tags with their own leaf syntax (base, modified-since, added-since, AudioFormat, prio) are not generated".into(),
             ],
             exhaustive: Some(true),
-            floors: vec![("exhaustive_short_values".into(), 839), ("random_trees".into(), 1000), ("roundtrip_ok".into(), 5000)],
+            floors: vec![("unsendable_filters_tried".into(), 1000), ("exhaustive_short_values".into(), 839), ("random_trees".into(), 1000), ("roundtrip_ok".into(), 5000)],
             extra: vec![("exhaustive_scope".into(), J::Str("short value strings x 8 placements; random trees are sampled".into()))],
         }
     }
